@@ -10,19 +10,56 @@ import ast
 
 
 def identity_sites(mod, repo=None):
-    """[(function qualname, Compare node)] for value identity comparisons in a module"""
+    """[(function qualname, Compare node)] for value identity comparisons in a module whose outcome IS an observable decision: the
+    comparison is returned / stored / used as a filter, or one of the two branches it selects is a refusal or a skip (return of a constant,
+    raise, continue, break, pass).  An identity test that only chooses between two computations -- `if self is G: <table path> else:
+    <generic path>` -- is not reported: whether the two paths agree is not something this rule can see, and a fast path for a well-known
+    singleton is a legitimate idiom"""
     out = []
     for qn, fn in mod.functions.items():
         params = {a.arg for a in fn.args.posonlyargs + fn.args.args + fn.args.kwonlyargs}
+        parent = {}
+        for p_ in ast.walk(fn):
+            for ch in ast.iter_child_nodes(p_):
+                parent[ch] = p_
         for n in ast.walk(fn):
             if not isinstance(n, ast.Compare):
                 continue
             left = n.left
             for op, c in zip(n.ops, n.comparators):
                 if isinstance(op, (ast.Is, ast.IsNot)) and not any(_exempt(s, mod) for s in (left, c)) and any(_from_outside(s, params) for s in (left, c)):
-                    out.append((qn, n))
+                    if _decides_outcome(n, parent):
+                        out.append((qn, n))
                 left = c
     return out
+
+
+def _negative_block(stmts):
+    """a block that refuses or skips: its first statement is a raise / continue / break / pass or the return of a constant (False, None, an
+    empty literal)"""
+    if not stmts:
+        return False   # no else: what follows the `if` is the other branch, and it is a computation unless the body itself refuses
+    s = stmts[0]
+    if isinstance(s, (ast.Raise, ast.Continue, ast.Break, ast.Pass)):
+        return True
+    if isinstance(s, ast.Return):
+        v = s.value
+        return v is None or isinstance(v, ast.Constant) or (isinstance(v, (ast.List, ast.Tuple, ast.Dict, ast.Set)) and not (getattr(v, "elts", None) or getattr(v, "keys", None)))
+    return False
+
+
+def _decides_outcome(cmp_node, parent):
+    n = cmp_node
+    p_ = parent.get(n)
+    while isinstance(p_, (ast.BoolOp, ast.UnaryOp)):
+        n, p_ = p_, parent.get(p_)
+    if isinstance(p_, ast.If) and p_.test is n:
+        return _negative_block(p_.body) or _negative_block(p_.orelse)
+    if isinstance(p_, ast.IfExp) and p_.test is n:
+        return isinstance(p_.body, ast.Constant) or isinstance(p_.orelse, ast.Constant)
+    if isinstance(p_, ast.While) and p_.test is n:
+        return True
+    return True   # returned, stored, asserted, a comprehension filter, an argument: the comparison's value is the observable
 
 
 def _from_outside(e, params):
